@@ -5,10 +5,10 @@
 (* Rand/ARI unchanged (C06); indices are in range when defined (C01); ARI = 1 when the two       *)
 (* partitions coincide; relabelling by case changes nothing.                                      *)
 EXTENDS SegmentCluster, TLC, Json
-CONSTANTS T, NI, Labels, FS
+CONSTANTS T, NI, Labels, FS, Step      \* boundaries are multiples of Step (Step > 1: many frames per segment - the decimal frame grid)
 VARIABLES ref, est, fs, out, pc
 vars == <<ref, est, fs, out, pc>>
-Segs == {IntervalsOf(SortSet(X \cup {0, T})) : X \in {Y \in SUBSET (1..(T - 1)) : Cardinality(Y) <= NI - 1}}
+Segs == {IntervalsOf(SortSet(X \cup {0, T})) : X \in {Y \in SUBSET {Step * i : i \in 1..((T - 1) \div Step)} : Cardinality(Y) <= NI - 1}}
 Ann == UNION {{[ivs |-> iv, labs |-> l] : l \in [1..Len(iv) -> Labels]} : iv \in Segs}
 Init == ref \in Ann /\ est \in Ann /\ fs \in FS /\ out = <<>> /\ pc = "in"
 YR == FrameLabels(ref.ivs, ref.labs, fs)
